@@ -84,6 +84,15 @@ pub struct RunOut {
     pub sarif_text: Option<String>,
 }
 
+/// Number of subprocess runs of this process and the wall time of the slowest one (reported in the
+/// evidence next to the CPU limits, so that the margin of the limits can be read off every run).
+static RUNS: std::sync::atomic::AtomicU64 = std::sync::atomic::AtomicU64::new(0);
+static SLOWEST_RUN_MS: std::sync::atomic::AtomicU64 = std::sync::atomic::AtomicU64::new(0);
+
+pub fn run_stats() -> (u64, u64) {
+    (RUNS.load(std::sync::atomic::Ordering::Relaxed), SLOWEST_RUN_MS.load(std::sync::atomic::Ordering::Relaxed))
+}
+
 pub fn run(bin: &Path, opts: &RunOpts) -> Result<RunOut, String> {
     let mut cmd = Command::new(bin);
     cmd.args(opts.args());
@@ -115,7 +124,10 @@ pub fn run(bin: &Path, opts: &RunOpts) -> Result<RunOut, String> {
             let _ = std::fs::write(s, &stale);
         }
     }
+    let t0 = std::time::Instant::now();
     let out = cmd.output().map_err(|e| format!("cannot spawn {}: {e}", bin.display()))?;
+    RUNS.fetch_add(1, std::sync::atomic::Ordering::Relaxed);
+    SLOWEST_RUN_MS.fetch_max(t0.elapsed().as_millis() as u64, std::sync::atomic::Ordering::Relaxed);
     let stdout_utf8 = std::str::from_utf8(&out.stdout).is_ok();
     let sarif_text = opts.sarif.as_ref().and_then(|p| std::fs::read_to_string(p).ok()).filter(|t| !(opts.stale_sarif && *t == stale));
     Ok(RunOut {
